@@ -7,7 +7,8 @@ package main
 //
 // Line format (fields separated by blanks; bytes in hex, `-` = empty; lists: `_` = empty, `nil` = nil slice):
 //
-//	mvalid <checkHash 0/1> <9 fields>   -> ok | err:<class>
+//	mvalid <checkHash 0/1> <9 fields>   -> ok | err:<class>            (IsValid(hash, false))
+//	mvalidsz <checkHash 0/1> <9 fields> -> ok | err:<class>            (IsValid(hash, true): + the serialisation limits)
 //	mitem  <9 fields>                   -> <9 fields of the decoded manifest (groups without verdict)> | err
 //	mcancall <perms> <hash> <callee group keys> <method>  -> true | false
 //
@@ -181,6 +182,8 @@ func classifyManifestErr(err error) string {
 		return "err:permDupMethods"
 	case has("contracts have duplicates"):
 		return "err:dupPermissions"
+	case has("manifest is not serializable") || has("failed to check manifest serialisation"):
+		return "err:notSerializable"
 	}
 	return "err:other:" + strings.ReplaceAll(s, " ", "_")
 }
@@ -393,6 +396,12 @@ func manifestCase(o *hx.Out, k int, r *prng.R) {
 	if obs == "panic" {
 		o.Fail("manifest-panic", k, "Manifest.IsValid panicked on %s", fields)
 	}
+	// 1b. the same with the size check (what ContractManagement.deploy / update run)
+	obsz := hx.Safe(func() string { return classifyManifestErr(m.IsValid(vh, true)) })
+	o.Line("mvalidsz "+b01(checkHash)+" "+fields, obsz)
+	if obsz != obs {
+		o.Count("manifest:isvalid-size-check-decides")
+	}
 	valid := obs == "ok"
 	if valid { // the duplicate checks, by the property's own reading: no two equal entries anywhere
 		dup := func(what string, keys []string) {
@@ -548,8 +557,57 @@ func manifestCase(o *hx.Out, k int, r *prng.R) {
 	o.Seen("manifest/" + fields)
 }
 
+// bigManifests: manifests around the two limits of stackitem.Serialize (2048 items, 131070 bytes), which
+// IsValid(hash, checkSize = true) enforces: n methods without parameters (6 items each), n methods with p parameters
+// (6+3p items each), long names.
+func bigManifests(o *hx.Out, k int) {
+	mk := func(nMethods, nParams, nameLen int) *manifest.Manifest {
+		m := manifest.NewManifest("big")
+		for i := 0; i < nMethods; i++ {
+			name := fmt.Sprintf("m%d", i)
+			for len(name) < nameLen {
+				name += "x"
+			}
+			m.ABI.Methods = append(m.ABI.Methods, manifest.Method{Name: name, Offset: i, Parameters: genParams(prng.ForCase(1, i), 0), ReturnType: smartcontract.VoidType})
+			for j := 0; j < nParams; j++ {
+				m.ABI.Methods[i].Parameters = append(m.ABI.Methods[i].Parameters, manifest.Parameter{Name: fmt.Sprintf("p%d", j), Type: smartcontract.IntegerType})
+			}
+		}
+		return m
+	}
+	var ms []*manifest.Manifest
+	for n := 337; n <= 342; n++ { // 11 + 6n items: 2048 is crossed between n = 339 and n = 340
+		ms = append(ms, mk(n, 0, 0))
+	}
+	for n := 134; n <= 137; n++ { // 11 + 15n items
+		ms = append(ms, mk(n, 3, 0))
+	}
+	for _, l := range []int{370, 380, 384, 385, 386, 390, 400} { // 330 methods with long names: the byte limit
+		ms = append(ms, mk(330, 0, l))
+	}
+	m := mk(200, 0, 0) // offsets and return types of several byte lengths
+	for i := range m.ABI.Methods {
+		m.ABI.Methods[i].Offset = []int{0, 1, 127, 128, 255, 256, 32767, 32768, 65535, 8388608}[i%10]
+		m.ABI.Methods[i].ReturnType = []smartcontract.ParamType{smartcontract.VoidType, smartcontract.BoolType, smartcontract.AnyType, smartcontract.InteropInterfaceType}[i%4]
+	}
+	ms = append(ms, m)
+	for _, m := range ms {
+		fields := encManifest(m, nil)
+		obs := hx.Safe(func() string { return classifyManifestErr(m.IsValid(util.Uint160{}, true)) })
+		o.Line("mvalidsz 0 "+fields, obs)
+		o.Count("manifest:big:" + obs)
+		// the byte size as a measurement for the report
+		if it, err := m.ToStackItem(); err == nil {
+			if b, err := stackitem.Serialize(it); err == nil && len(b) > 120000 {
+				o.Count("manifest:big:serialised-above-120000-bytes")
+			}
+		}
+	}
+}
+
 // manifestCorpus: hand-written nasty manifests (run first).
 func manifestCorpus(o *hx.Out, k int) {
+	bigManifests(o, k)
 	h := hashOf(1)
 	key := func(id int) *keys.PublicKey { return groupKey(id).PublicKey() }
 	base := func() *manifest.Manifest {
